@@ -386,8 +386,10 @@ class Collocator:
         try:
             processed = 0
             collocated_matches = self._collocate_matches(**kwargs)
-            for collocations, attributes in collocated_matches:
-                match = matches[processed]
+            for collocations, attributes, match in collocated_matches:
+                # (match: the files that were actually collocated; matches
+                # that were skipped due to file errors yield nothing, so
+                # matches[processed] would point to an earlier match)
                 processed += 1
                 progress = 100 * processed / len(matches)
 
@@ -564,7 +566,7 @@ class Collocator:
             if collocations is None:
                 self._debug("Found no collocations!")
                 # At least, give the process caller a progress update:
-                yield None, None
+                yield None, None, files
                 continue
 
             # Check whether the collocation data is compatible and was build
@@ -596,7 +598,7 @@ class Collocator:
                 for p, v in file.attr.items()
             }
 
-            yield collocations, attributes
+            yield collocations, attributes, files
 
 
     def collocate(
